@@ -112,7 +112,7 @@ Definition guarded_path_op (o : op) : bool :=
   match o with
   | Get _ _ _ | Contains _ _ _ | Len _ _ | Keys _ _ | Del _ _ _ | Pop _ _ _ _ | PopItem _ _
   | SetV _ _ _ _ | SetDefault _ _ _ _ | Clear _ _ | Update _ _ _ | View _ _ | EqD _ _ _
-  | GetM _ _ _ _ => true
+  | GetM _ _ _ _ | UpdateBoth _ _ _ _ => true
   | _ => false
   end.
 
@@ -358,6 +358,15 @@ Proof.
   - repeat split; reflexivity.
   - repeat split; reflexivity.
   - destruct (get k d0); repeat split; reflexivity.
+  - (* UpdateBoth *)
+    unfold do_update. destruct (kvs ++ kw) as [|kv kvs'] eqn:Ek; [repeat split; reflexivity|].
+    pose proof (nav_clear_upto S c J fl kp d0 HS HG Hn) as Hcu.
+    rewrite excise_not_blocked by (apply clear_upto_above; assumption).
+    destruct HG as [HL HI HC].
+    destruct (fold_update S kp (kv :: kvs') c J Hok HL HI Hcu) as [HL' HI'].
+    destruct (remerge_good S _ _ ONone HS HL' HI') as [d [Er _]].
+    rewrite Er. repeat split; try reflexivity.
+    cbn [fst]. rewrite lower_set_cache. apply (lower_fold_set kp (kv :: kvs') c).
 Qed.
 
 (** * 5. What a good state shows, against the specification's base *)
@@ -510,7 +519,8 @@ Record rel (fs : fsys) (i : init_args) (S : tree) (c : cfg) (r : rstate) : Prop 
   rl_st : r_st r = replay (union_of (lower c)) (r_journal r);
   rl_env : r_env r = c_env c;
   rl_h : r_handles r = [];
-  rl_d : r_dead r = []
+  rl_d : r_dead r = [];
+  rl_np : pending (r_loads r) = false
 }.
 
 Lemma lower_env c : nth 5 (lower c) (Node []) = c_env c.
@@ -533,7 +543,7 @@ Lemma path_step_ok S fs i c r o : is_node S = true -> rel fs i S c r ->
                            (c_env (fst (step fs c o))) = (None, r') /\
              rel fs i S (fst (step fs c o)) r'.
 Proof.
-  intros HS [Hgood Hlev Hst Henv Hh Hd] Hok Hwf Hg.
+  intros HS [Hgood Hlev Hst Henv Hh Hd Hnp] Hok Hwf Hg.
   destruct (good_view_union S c _ HS Hgood) as [Wst Hsim]. rewrite <- Hst in Wst, Hsim.
   destruct (model_out_is_nd_out S fs c _ o HS Hgood Hok Hg) as [M1 [E1 L1]].
   destruct (good_cache_conforms S c _ HS Hgood) as [Wc _].
@@ -584,6 +594,7 @@ Proof.
   - rewrite Ec. exact Henv.
   - rewrite Hh. reflexivity.
   - rewrite Hh, Hd. reflexivity.
+  - exact Hnp.
 Qed.
 
 Definition is_guarded_reload (o : op) : bool :=
@@ -604,7 +615,7 @@ Lemma reload_step_ok S fs i c r o : is_node S = true -> rel fs i S c r ->
   (exists r', judge_step fs i r x = (Some true, r')) \/
   (exists r', judge_step fs i r x = (None, r') /\ rel fs i S (fst (step fs c o)) r').
 Proof.
-  intros HS [Hgood Hlev Hst Henv Hh Hd] Hok Hr. cbv zeta.
+  intros HS [Hgood Hlev Hst Henv Hh Hd Hnp] Hok Hr. cbv zeta.
   destruct (step_good S fs c _ o HS Hgood Hok) as [Hgood' _].
   assert (Eev : events_of c o = []) by (destruct o; try discriminate; reflexivity).
   rewrite Eev, app_nil_r in Hgood'.
@@ -627,8 +638,9 @@ Proof.
       rewrite E3, E2, levels_snoc_env, (levels9_env _ (r_env r)), <- Hlev. reflexivity. }
   unfold judge_step.
   assert (Ep : is_path_op o = false) by (destruct o; try discriminate; reflexivity).
-  assert (Erl : is_reload o = true) by (destruct o; try discriminate; reflexivity).
-  rewrite Ep, Erl.
+  assert (Erl : merges o = true) by (destruct o; try discriminate; reflexivity).
+  assert (Edf : is_deferred o = false) by (destruct o; try discriminate; reflexivity).
+  rewrite Edf, Hnp, Ep, Erl. cbn [andb].
   destruct Hfacts as [Ee | [Eo [El Eenv]]]; [rewrite Ee; left; eauto|].
   rewrite Eo. cbn [env_error out_match andb].
   destruct (scope_ok fs i (r_loads r ++ [o]) (c_env c')); cbn [negb]; [|left; eauto].
@@ -642,6 +654,7 @@ Proof.
       rewrite Eenv, Henv; apply tree_equiv_refl; apply (good_env_wf S c _ Hgood). }
   rewrite C. eexists. split; [reflexivity|].
   constructor; cbn [r_journal r_loads r_env r_st r_handles r_dead]; auto.
+  unfold pending. rewrite last_last. exact Edf.
 Qed.
 
 (** * 10. Whole histories *)
@@ -667,7 +680,8 @@ Proof.
   destruct (op_ok_kinds S o Hop) as [Hg | Hr].
   - destruct (path_step_ok S fs i c r o HS Hrel Hop Hwf Hg) as [r' [Ej Hrel']].
     assert (Ep : is_path_op o = true) by (destruct o; try discriminate; reflexivity).
-    unfold judge_step. rewrite Ep, Ej.
+    assert (Edf : is_deferred o = false) by (destruct o; try discriminate; reflexivity).
+    unfold judge_step. rewrite Edf, (rl_np _ _ _ _ _ Hrel), Ep. cbn [andb]. rewrite Ej.
     destruct (abnormal (snd (step fs c o))); [reflexivity | apply IH; assumption].
   - destruct (reload_step_ok S fs i c r o HS Hrel Hop Hr) as [[r' Ej] | [r' [Ej Hrel']]]; cbv zeta in Ej;
       rewrite Ej; [reflexivity|].
